@@ -40,4 +40,14 @@ theorem InterpCtl_run (env : Env) (σ : St) (hsz : env.prog.size < 2 ^ 63) (h : 
 /-- the initial locals abstract to the model's initial state and satisfy the invariant -/
 theorem InterpCtl_init (m : Memory) : abs (initSrc m) = Interp.init m ∧ Inv (initSrc m) := Src.initSrc_abs m
 
+/-- the set-up of the locals before the loop, as translated: the registers (`initSrc` takes them from `Interp.init`), the fresh frames and the stack size are the source's -/
+theorem InterpCtl_locals (m : Memory) : initSrcOk = true ∧ (initSrc m).reg = initRegsSrc m ∧ (initSrc m).stacks = Vector.replicate 8 initFrameSrc ∧ stackSizeSrc = 512 := by
+  refine ⟨by decide, ?_, rfl, by decide⟩
+  simp only [initSrc, Interp.init, initRegsSrc]
+  apply Vector.ext
+  intro i hi
+  simp only [Vector.getElem_setIfInBounds]
+  have e1 : ∀ a b : Nat, (a = b) = (b = a) := fun a b => propext ⟨Eq.symm, Eq.symm⟩
+  by_cases h1 : 1 = i <;> by_cases h10 : 10 = i <;> simp_all <;> omega
+
 end Rbpf
